@@ -93,29 +93,29 @@ func anyStrTerm(v value) *term {
 }
 
 func stubIndexByte(in *interp, fr *frame, fn *ssa.Function, args []value) value {
-	s := anyStrTerm(args[0])
+	s := in.rs(anyStrTerm(args[0]))
 	c := tFromCode(intTerm(args[1]))
 	return intVal(tIndexOf(s, c, mkInt(0)), types.Int)
 }
 
 func stubIndexString(in *interp, fr *frame, fn *ssa.Function, args []value) value {
-	return intVal(tIndexOf(anyStrTerm(args[0]), anyStrTerm(args[1]), mkInt(0)), types.Int)
+	return intVal(tIndexOf(in.rs(anyStrTerm(args[0])), in.rs(anyStrTerm(args[1])), mkInt(0)), types.Int)
 }
 
 func stubContains(in *interp, fr *frame, fn *ssa.Function, args []value) value {
-	return boolVal(tContains(anyStrTerm(args[0]), anyStrTerm(args[1])))
+	return boolVal(tContains(in.rs(anyStrTerm(args[0])), in.rs(anyStrTerm(args[1]))))
 }
 
 func stubHasPrefix(in *interp, fr *frame, fn *ssa.Function, args []value) value {
-	return boolVal(tPrefixOf(anyStrTerm(args[1]), anyStrTerm(args[0])))
+	return boolVal(tPrefixOf(in.rs(anyStrTerm(args[1])), in.rs(anyStrTerm(args[0]))))
 }
 
 func stubHasSuffix(in *interp, fr *frame, fn *ssa.Function, args []value) value {
-	return boolVal(tSuffixOf(anyStrTerm(args[1]), anyStrTerm(args[0])))
+	return boolVal(tSuffixOf(in.rs(anyStrTerm(args[1])), in.rs(anyStrTerm(args[0]))))
 }
 
 func stubTrimSuffix(in *interp, fr *frame, fn *ssa.Function, args []value) value {
-	s, suf := anyStrTerm(args[0]), anyStrTerm(args[1])
+	s, suf := in.rs(anyStrTerm(args[0])), in.rs(anyStrTerm(args[1]))
 	if s.isConst() && suf.isConst() {
 		return strings.TrimSuffix(s.s, suf.s)
 	}
@@ -126,7 +126,7 @@ func stubTrimSuffix(in *interp, fr *frame, fn *ssa.Function, args []value) value
 }
 
 func stubTrimPrefix(in *interp, fr *frame, fn *ssa.Function, args []value) value {
-	s, pre := anyStrTerm(args[0]), anyStrTerm(args[1])
+	s, pre := in.rs(anyStrTerm(args[0])), in.rs(anyStrTerm(args[1]))
 	if s.isConst() && pre.isConst() {
 		return strings.TrimPrefix(s.s, pre.s)
 	}
@@ -180,11 +180,11 @@ func stubCount(in *interp, fr *frame, fn *ssa.Function, args []value) value {
 }
 
 func stubBytesEqual(in *interp, fr *frame, fn *ssa.Function, args []value) value {
-	return boolVal(tEq(anyStrTerm(args[0]), anyStrTerm(args[1])))
+	return boolVal(tEq(in.rs(anyStrTerm(args[0])), in.rs(anyStrTerm(args[1]))))
 }
 
 func stubBytesCompare(in *interp, fr *frame, fn *ssa.Function, args []value) value {
-	a, b := anyStrTerm(args[0]), anyStrTerm(args[1])
+	a, b := in.rs(anyStrTerm(args[0])), in.rs(anyStrTerm(args[1]))
 	if a.isConst() && b.isConst() {
 		return bytes.Compare([]byte(a.s), []byte(b.s))
 	}
